@@ -310,7 +310,9 @@ func (s *BaseVisitor) EnterOC_InQueryCall(c *parser.OC_InQueryCallContext) {
 	s.newUnsupportedRuleError(c)
 }
 
-func (s *BaseVisitor) EnterOC_StandaloneCall(c *parser.OC_StandaloneCallContext) {}
+func (s *BaseVisitor) EnterOC_StandaloneCall(c *parser.OC_StandaloneCallContext) {
+	s.newUnsupportedRuleError(c)
+}
 
 func (s *BaseVisitor) EnterOC_YieldItems(c *parser.OC_YieldItemsContext) {}
 
